@@ -41,16 +41,47 @@ const Base = int64(1_700_000_000_000) // simulated epoch (ms)
 // ---------------------------------------------------------------------------
 // decisions
 
-// D wraps rapid so that every random choice is a labelled draw; a nil T means "no choices":
-// FIFO order, no holds, no faults (used by sequential re-runs and drains).
-type D struct{ T *rapid.T }
+// D wraps rapid so that every random choice is a labelled draw; a nil T (and no journal) means "no
+// choices": FIFO order, no holds, no faults (used by sequential re-runs and drains). With a Journal the
+// decisions of one run are recorded and can be replayed verbatim by further runs inside the same
+// property evaluation (C06 re-runs a case once per crash point).
+type D struct {
+	T *rapid.T
+	J *Journal
+}
 
-func (d D) On() bool { return d.T != nil }
+type Journal struct {
+	Vals   []int64
+	pos    int
+	replay bool
+}
+
+func (j *Journal) Replay() *Journal { return &Journal{Vals: j.Vals, replay: true} }
+
+func (d D) On() bool { return d.T != nil || (d.J != nil && d.J.replay) }
+
+func (d D) draw(f func() int64) int64 {
+	if d.J != nil && d.J.replay {
+		if d.J.pos < len(d.J.Vals) {
+			v := d.J.Vals[d.J.pos]
+			d.J.pos++
+			return v
+		}
+		return 0
+	}
+	v := f()
+	if d.J != nil {
+		d.J.Vals = append(d.J.Vals, v)
+	}
+	return v
+}
+
 func (d D) Int(lo, hi int, label string) int {
-	if d.T == nil || lo >= hi {
+	if !d.On() || lo >= hi {
 		return lo
 	}
-	return rapid.IntRange(lo, hi).Draw(d.T, label)
+	v := int(d.draw(func() int64 { return int64(rapid.IntRange(lo, hi).Draw(d.T, label)) }))
+	return min(hi, max(lo, v))
 }
 
 // rapid's integer generators are deliberately biased towards small values (a range draw of 0..39
@@ -61,10 +92,10 @@ func spread(x uint32) uint64 { return (uint64(x) * 0x9E3779B97F4A7C15) >> 29 }
 
 // Uni draws an index 0..n-1 (approximately) uniformly.
 func (d D) Uni(n int, label string) int {
-	if d.T == nil || n <= 1 {
+	if !d.On() || n <= 1 {
 		return 0
 	}
-	x := rapid.Uint32().Draw(d.T, label)
+	x := uint32(d.draw(func() int64 { return int64(rapid.Uint32().Draw(d.T, label)) }))
 	if x == 0 {
 		return 0
 	}
@@ -73,16 +104,27 @@ func (d D) Uni(n int, label string) int {
 
 // OneIn is true with probability 1/n (never when n <= 0).
 func (d D) OneIn(n int, label string) bool {
-	if d.T == nil || n <= 0 {
+	if !d.On() || n <= 0 {
 		return false
 	}
 	if n == 1 {
 		return true
 	}
-	x := rapid.Uint32().Draw(d.T, label)
+	x := uint32(d.draw(func() int64 { return int64(rapid.Uint32().Draw(d.T, label)) }))
 	return x != 0 && spread(x)%uint64(n) == 0
 }
-func (d D) Bool(label string) bool { return d.T != nil && rapid.Bool().Draw(d.T, label) }
+
+func (d D) Bool(label string) bool {
+	if !d.On() {
+		return false
+	}
+	return d.draw(func() int64 {
+		if rapid.Bool().Draw(d.T, label) {
+			return 1
+		}
+		return 0
+	}) != 0
+}
 
 // ---------------------------------------------------------------------------
 // trace
@@ -298,6 +340,10 @@ type Sim struct {
 	pending []*pend
 	cqes    []*CQE
 
+	// crash-point enumeration (C06): every flush position is a crash opportunity, numbered in CrashPos;
+	// when CrashAt >= 0 the kernel crashes at exactly that opportunity
+	CrashAt  int
+	CrashPos int
 	routerFails map[string]int
 	Problems []string // harness-level disagreements (primary vs shadow store)
 	BgRuns   map[string]int
@@ -325,7 +371,7 @@ func New(d D, cfg *system.Config, prof Profile, dir string) *Sim {
 	if prof.ApiSize == 0 {
 		prof.ApiSize = 1000
 	}
-	s := &Sim{D: d, Cfg: cfg, Prof: prof, Dir: dir, Path: filepath.Join(dir, fmt.Sprintf("p%d.db", simCounter)), Now: Base, BgRuns: map[string]int{}, routerFails: map[string]int{}}
+	s := &Sim{D: d, Cfg: cfg, Prof: prof, Dir: dir, Path: filepath.Join(dir, fmt.Sprintf("p%d.db", simCounter)), Now: Base, BgRuns: map[string]int{}, routerFails: map[string]int{}, CrashAt: -1}
 	var err error
 	if !prof.NoShadow {
 		shadowPath := filepath.Join(dir, fmt.Sprintf("s%d.db", simCounter))
@@ -602,7 +648,8 @@ func (s *Sim) Flush(t int64) {
 	}
 	crashed := false
 	for i, x := range p {
-		if s.crashAllowed() && d.OneIn(s.Prof.Crash, "crash") {
+		s.CrashPos++
+		if (s.CrashAt >= 0 && s.CrashPos-1 == s.CrashAt && s.Inc == 0) || (s.CrashAt < 0 && s.crashAllowed() && d.OneIn(s.Prof.Crash, "crash")) {
 			flushBatch()
 			s.checkShadow()
 			// everything not yet executed is lost together with the kernel
@@ -644,6 +691,13 @@ func (s *Sim) Flush(t int64) {
 		return
 	}
 	flushBatch()
+	// the end of a flush (after the last commit, before the next tick) is a crash opportunity as well
+	s.CrashPos++
+	if s.CrashAt >= 0 && s.CrashPos-1 == s.CrashAt && s.Inc == 0 {
+		s.checkShadow()
+		s.Crash()
+		return
+	}
 	if storeTouched {
 		s.checkShadow()
 	}
